@@ -251,6 +251,8 @@ def _quant(I, fn, lo, hi, exists):
         return not exists
     i = ctx.push_bound("i")
     rng = z3.And(i.z >= to_int_z(lo), i.z < to_int_z(hi))
+    if isinstance(lo, int) and not isinstance(lo, bool) and lo >= 0:
+        ctx.nonneg.add(i.z.get_id())  # indexing with this variable needs no negative-index normalisation
 
     def thunk():
         ctx.pc.append(rng)
